@@ -258,6 +258,31 @@ func init() {
 				}
 			}
 		}
+		// pointers to collections (Go-only data): looped over like the collection; a nil pointer to a
+		// collection, like a nil collection, renders nothing; a pointer to something else is an error
+		{
+			var nps *[]int
+			var npm *map[string]int
+			var npa *[2]int
+			var npt *T0
+			extra := map[string]interface{}{"ps": &[]int{1, 2}, "pa": &[2]string{"a", "b"}, "pm": &map[string]int{"k": 7}, "nps": nps, "npm": npm, "npa": npa, "npt": npt, "pt": &T0{"x"},
+				"ns": []int(nil), "nm": map[string]int(nil), "nif": []interface{}(nil)}
+			for _, t := range [][2]string{{"ps", "0=1;1=2;"}, {"pa", "0=a;1=b;"}, {"pm", "k=7;"}, {"nps", ""}, {"npm", ""}, {"npa", ""}, {"ns", ""}, {"nm", ""}, {"nif", ""}, {"npt", "ERR"}, {"pt", "ERR"}} {
+				tm := "<%= for (k, v) in " + t[0] + " { %><%= k %>=<%= v %>;<% } %>|end"
+				o := runRenderExtra(RCase{Tmpl: tm}, extra)
+				e.rep.Evaluations++
+				e.Count("pointer-iterables")
+				e.Distinct(tm)
+				rp := map[string]interface{}{"tmpl": tm, "observed": o}
+				if t[1] == "ERR" {
+					if o.Class != "ERR" {
+						e.Violate("c08-noniterable", fmt.Sprintf("for over %s: want an error, got %q (%s)", t[0], o.Out, o.Class), rp)
+					}
+				} else if o.Class != "OK" || o.Out != t[1]+"|end" {
+					e.Violate("c08-unroll", fmt.Sprintf("%s: rendered %q (%s %s), element-by-element reference %q", tm, o.Out, o.Class, firstLine(o.Msg), t[1]+"|end"), rp)
+				}
+			}
+		}
 		fixed := []lbody{
 			{{Kind: "val"}, {Kind: "text", S: ","}},
 			{{Kind: "key"}, {Kind: "text", S: "="}, {Kind: "val"}, {Kind: "text", S: ";"}},
